@@ -1,5 +1,6 @@
 #include <nano/function/constraint.h>
 #include <nano/solver/state.h>
+#include <nano/verif.h>
 
 using namespace nano;
 
@@ -51,6 +52,7 @@ bool solver_state_t::update(const vector_cmap_t x, const vector_cmap_t gx, const
 bool solver_state_t::update_if_better(const vector_t& x, const vector_t& gx, const scalar_t fx)
 {
     update_calls();
+    NANO_VERIF_TRACE("state.update_if_better", fx, m_fx, x, gx);
 
     if (std::isfinite(fx))
     {
